@@ -208,3 +208,112 @@ def bulk_task(pid, kind):
     if nret == 0:
         out.append(Result('%s.bulk.%s' % (pid, kind), 'vacuity', 'error', detail='no returning path'))
     return out
+
+
+# ------------------------------------------------------------------ Cache.cull (C09, C14)
+def install_cull_loops(ctx):
+    """cull(): expire(now) first (its paging invariant is the 'expire' instance above), then batches of the
+    policy query while volume() > size_limit.  Invariant of the batch loop: table invariant, no cell
+    modified, live rows were live at entry, count == rows removed so far (incl. the expired ones)."""
+    install_loops(ctx, 'expire')
+
+    def inv(it, fr, _):
+        st = it.st
+        w, w0 = st.world, c03.world0(st)
+        q = z3.Int('q_cull')
+        parts = [SM.invariant(w)]
+        for c in SM.COLS:
+            parts.append(w['T.' + c] == w0['T.' + c])
+            if SM.COLS[c][1]:
+                parts.append(w['T.' + c + '?'] == w0['T.' + c + '?'])
+        parts.append(z3.ForAll([q], z3.Implies(z3.Select(w['T.live'], q), z3.Select(w0['T.live'], q))))
+        cnt = int_term(fr.locals['count'])
+        parts.append(z3.And(cnt == w0['T.card'] - w['T.card'], cnt >= 0))
+        parts.append(z3.BoolVal(not st.world.get('txn.active')))
+        # no expired row is left once expire(now) has run (live only shrinks afterwards)
+        now = real_term(fr.locals['now'])
+        parts.append(z3.ForAll([q], z3.Not(z3.And(z3.Select(w['T.live'], q), z3.Not(z3.Select(w0['T.expire_time?'], q)),
+                                                  z3.Select(w0['T.expire_time'], q) < now))))
+        return z3.And(*parts)
+
+    def on_havoc(it, fr):
+        it.st.ghost['inv_arrays'] = None
+    ctx.loop_invariants[('diskcache.core.Cache.cull', 0)] = LoopSpec(
+        'bulk.cull.batches', inv, havoc_world=WKEYS, on_havoc=on_havoc,
+        shapes={'rows': lambda st: None, 'delete': lambda st: None})
+
+
+def cull_task(pid, policy):
+    ctx = cctx()
+    install_cull_loops(ctx)
+
+    def body(st):
+        ctx.sql.busy = True
+        ctx.sql.faults = False
+        it = ctx.interp(st)
+        cache = make_cache(ctx, st, policy=policy)
+        st.assume(c03.files_agree(st.world))
+        retry = st.fresh_sv('retry', 'bool')
+        st.ghost['args'] = {'retry': retry}
+        st.ghost['args0'] = {'now': None}
+        st.ghost['self'] = cache
+        st.ghost['lazy_now'] = True
+        return it.call(ctx.func('diskcache.core.Cache.cull'), [cache], {'retry': retry})
+    # the 'expire' matcher needs the `now` that cull() reads from the clock
+    global matcher
+    old_matcher = matcher
+
+    def matcher2(kind, st, args0):
+        if kind == 'expire' and args0.get('now') is None:
+            ts = c03.clock_readings(st)
+            args0 = dict(args0, now=ts[0]) if ts else args0
+        return old_matcher(kind, st, args0)
+    matcher = matcher2
+    try:
+        paths = explore(body, max_paths=4000)
+    finally:
+        matcher = old_matcher
+    out = []
+    nret = 0
+    for n, p in enumerate(paths):
+        st = p.state
+        base = '%s.bulk.cull[%s]#%d' % (pid, policy, n)
+        fn = 'Cache.cull'
+        for o in st.obligations:
+            out.append(discharge('%s/%s' % (base, o.name), o.kind, o.pc, o.goal, function=fn, path=p.decisions))
+        if p.kind == 'cut':
+            continue
+        w, w0 = st.world, c03.world0(st)
+        if p.kind == 'raise' and p.value.cls == 'Timeout':
+            if not p.value.args:
+                out.append(Result(base + '.timeout_reports_count', 'raises', 'refuted', ms=0, backend='engine', function=fn,
+                                  path=p.decisions, detail='Timeout without the removed count'))
+            else:
+                out.append(discharge(base + '.timeout_reports_count', 'raises', p.pc,
+                                     int_term(p.value.args[0]) == w0['T.card'] - w['T.card'], function=fn, path=p.decisions))
+            continue
+        if p.kind != 'return':
+            r = discharge(base + '.no_other_exception', 'post', p.pc, z3.BoolVal(False), function=fn, path=p.decisions)
+            r['detail'] = 'raises %r' % (p.value,) if r['verdict'] != 'proved' else None
+            out.append(r)
+            continue
+        nret += 1
+        q = z3.Int('q_cp')
+        parts = [('returns_removed', int_term(p.value) == w0['T.card'] - w['T.card']),
+                 ('nothing_added', z3.ForAll([q], z3.Implies(z3.Select(w['T.live'], q), z3.Select(w0['T.live'], q)))),
+                 ('cells_untouched', z3.And(*[w['T.' + c] == w0['T.' + c] for c in SM.COLS])),
+                 ('invariant', SM.invariant(w))]
+        ts = c03.clock_readings(st)
+        if ts:
+            now = ts[0]
+            parts.append(('expired_all_removed', z3.ForAll([q], z3.Not(z3.And(
+                z3.Select(w['T.live'], q), z3.Not(z3.Select(w0['T.expire_time?'], q)), z3.Select(w0['T.expire_time'], q) < now)))))
+            if policy == 'none':
+                parts.append(('policy_none_removes_only_expired', z3.ForAll([q], z3.Implies(
+                    z3.And(z3.Select(w0['T.live'], q), z3.Not(z3.Select(w['T.live'], q))),
+                    z3.And(z3.Not(z3.Select(w0['T.expire_time?'], q)), z3.Select(w0['T.expire_time'], q) < now)))))
+        for nm, g in parts:
+            out.append(discharge('%s.%s' % (base, nm), 'refine', p.pc, g, function=fn, path=p.decisions))
+    if nret == 0:
+        out.append(Result('%s.bulk.cull[%s]' % (pid, policy), 'vacuity', 'error', detail='no returning path'))
+    return out
